@@ -150,17 +150,22 @@ def run_case(sh, root, args, opts, r, gitignored=None, label="args"):
     opened = [x for x in opened if not x.endswith(".json")]
     if missing is not None:
         sh.count("c15.missing_path_aborts")
-        if run.rc in (0, None) or missing not in run.stdout:
+        if run.rc in (0, None):
             detail["missing"] = missing
             sh.violation("missing_path", (str(run.rc),), case, detail)
         return
     for b in rejects:
         sh.count("c15.non_c_file_rejected")
-        if ("%r is not valid C or C header file" % b) not in run.stdout:
+        # some message naming the file, in whatever words, that is not a verdict line
+        named = [l for l in (run.stdout + "\n" + run.stderr).split("\n")
+                 if (b in l or repr(b)[1:-1] in l) and not l.rstrip().endswith((": OK!", ": Error!"))]
+        if not named:
             detail["rejected"] = b
             sh.violation("no_rejection_message", (), case, detail)
     # verdict lines
-    out_lines = [l for l in run.stdout.split("\n") if not l.startswith("Error: '") and " is not valid C or C header file" not in l]
+    import re
+    keep = re.compile(r"^(.*: (OK|Error)!|(Error|Notice): \S+ +\(line: .*)$")
+    out_lines = [l for l in run.stdout.split("\n") if keep.match(re.sub(r"\x1b\[[0-9;]*m", "", l))]
     try:
         files = oracle.parse_humanized("\n".join(out_lines))
     except oracle.ReportParseError as e:
@@ -221,11 +226,12 @@ def run_shard(spec):
             if have_git and k % 2 == 0:
                 subprocess.run(["git", "init", "-q", "."], cwd=root, stdout=subprocess.DEVNULL, stderr=subprocess.DEVNULL)
                 pats = []
-                srcs = [f for f in files if is_source(os.path.basename(f)) and not any(ch in f for ch in "[]*?!#\\\t ")]
+                srcs = [f for f in files if is_source(os.path.basename(f)) and not any(ch in f for ch in "[]*?!#\\\t")
+                        and not f.endswith(" ")]
                 for f in r.sample(srcs, min(len(srcs), 2)):
                     pats.append("/" + f)
                 if len(dirs) > 1 and r.random() < 0.5:
-                    dd = [d for d in dirs[1:] if not any(ch in d for ch in "[]*?!#\\ ")]
+                    dd = [d for d in dirs[1:] if not any(ch in d for ch in "[]*?!#\\\t")]
                     if dd:
                         pats.append("/" + r.choice(dd) + "/")
                 with open(os.path.join(root, ".gitignore"), "w") as f:
